@@ -19,6 +19,7 @@ from pyvc.unit import unit
 from pyvc import core
 
 LEVEL = "other"
+STANDIN_ALWAYS_THOROUGH = True      # its large bound takes seconds: used at both tiers
 EXPLANATION = ("MIXED. parse_body_arguments decided by case analysis on the real function: every exception of the inner parsers (six classes stubbed) leaves as "
                "HTTPInputError, Content-Encoding / malformed content type / missing boundary are refused, other types ignored. parse_multipart_form_data's limits by "
                "boundary-value analysis on real bodies: k parts vs max_parts in {k-1,k,k+1}, header size vs max_part_header_size likewise - refused exactly above the limit. "
